@@ -34,7 +34,8 @@ class JsonDeserializer {
 
     err = parseVariant(variant, filter, nestingLimit);
 
-    if (!err && latch_.last() != 0 && variant.isFloat()) {
+    if (!err && latch_.last() != 0 && !isSpace(latch_.last()) &&
+        variant.isFloat()) {
       // We don't detect trailing characters earlier, so we need to check now
       return DeserializationError::InvalidInput;
     }
@@ -576,6 +577,10 @@ class JsonDeserializer {
 
   static inline bool isBetween(char c, char min, char max) {
     return min <= c && c <= max;
+  }
+
+  static inline bool isSpace(int c) {
+    return c == ' ' || c == '\t' || c == '\r' || c == '\n';
   }
 
   static inline bool canBeInNumber(char c) {
